@@ -870,7 +870,6 @@ func c11BuilderWiring(c *an.Ctx) {
 	}
 }
 
-
 // c11BucketScan: the membership test of a bucket.
 func c11BucketScan(c *an.Ctx) {
 	const name = "filter/hashprefix.(*Storage).Matches"
